@@ -341,7 +341,7 @@ def eulerian_convenience_class(S, rep):
                 for op in I.trace:
                     if op.kind == "ElemRead" and op.arr.alloc.label == al_name:
                         der, root = getattr(op.arr.alloc, "derivation", None), op.arr
-                        while der is not None and der[0] in ("reshape", "copy", "astype"):
+                        while der is not None and der[0] in ("reshape", "copy", "astype", "maybe_copy"):
                             root = der[1][0]
                             der = getattr(root.alloc, "derivation", None)
                         src = root
